@@ -48,6 +48,15 @@ CHECKS = {
  "C15": ("deterministic simulation: histories of Spinner.run calls over one virtual-time reactor; pre-installed signal handlers, SIGINT/SIGTERM/stop events at seeded instants incl. ties; result-set model as oracle",
          "seeded exploration: each call returns its own result (value / same exception / TimeoutError / NoResultError, a set at ties), guards raise, reactor clean, leftovers reported as junk and nothing else, reactor.stop and the three signal handlers restored",
          "real global reactor not covered (wall-clock timing does not replay); a SIGINT is a stop request only with default_int_handler pre-installed; sampling, not proof", "3/C15"),
+ "C06": ("deterministic simulation of the one nondeterminism source in this property: matcher objects get a seeded __hash__, so the iteration order of MatchesSetwise's internal set is a simulator decision; verdict compared across hash assignments and with an independent bipartite-matching model",
+         "seeded exploration of the iteration-order facet: for every (matchers, observed) explored, the verdict is identical under all explored hash assignments and equals 'a one-to-one assignment exists'; operands unchanged",
+         "NARROW SCOPE: only MatchesSetwise's hash/iteration-order determinism is decided. match() of every stock matcher and the truth-functional laws of the other combinators are pure functions of (expression, value) with no schedule, clock, fault or interleaving: not a simulation target, NOT decided by this check (DESIGN section 4)", "3/C06"),
+ "C16": ("deterministic simulation of the reader seam: simulated stream/file with seeded short reads, EOF positions, seek origins and later mutation of the source (testtools.content.open rebound); seeded fragmentation of byte strings into chunks; read log checked for laziness",
+         "seeded exploration of the stream/chunking/snapshot facets: bytes from the requested offset to EOF, non-empty chunks <= chunk_size, lazy unless buffer_now, as_text independent of the cut, == is type+bytes, gathered details are snapshots",
+         "NARROW SCOPE: text_content/json_content construction and the ContentType<->MIME-string inverse are pure functions of their input and only exercised as workload; sampling, not proof", "3/C16"),
+ "C20": ("deterministic simulation: seeded histories of fire / fail / add-callback / match / extract operations on one Deferred with garbage collection under simulator control and a recording Twisted log observer; plus scripted tests under SynchronousDeferredRunTest compared with the plain runner",
+         "seeded exploration: exactly one classifier matches per state, inner matcher handed the exact value/Failure, extract_result returns/raises, matching never fires, later callbacks see the original value, inspected failures are not logged at collection, sync runner equals direct return/raise",
+         "after a failure was inspected or extract_result was used the Deferred's later result is not compared; sampling, not proof", "3/C20"),
 }
 
 NOT_APPLICABLE = [
